@@ -94,9 +94,9 @@ def emptyB (info : Option (Prim R)) (n : Nat) : BDoc R :=
 def prepared (fmt : R → List UInt8) (pages : List (PageB R)) (info : Option (Prim R)) : BDoc R :=
   (runB fmt (emptyB info pages.length) (buildOps pages)).1
 
-/-- `PdfBuilder::build`: the file -/
+/-- `PdfBuilder::build`: the file (the catalog the builder made loads as a catalog: `typed = true`) -/
 def buildB (fmt : R → List UInt8) (pages : List (PageB R)) (info : Option (Prim R)) : Out (List UInt8) :=
-  match saveB fmt (prepared fmt pages info) with
+  match saveB fmt true (prepared fmt pages info) with
   | (b', .ok _) => .ok b'.bytes
   | (_, .err) => .err
   | (_, .panic) => .panic
